@@ -20,6 +20,8 @@ pub const NAMES: &[&str] = &[
     "distinct_identities",
     "key_pairs_checked",
     "model_impl_validity_disagreements",
+    "long_lines",
+    "long_line_plies",
 ];
 const COH: usize = 0;
 const AMAKE: usize = 1;
@@ -29,6 +31,8 @@ const TRANS: usize = 4;
 const IDENTS: usize = 5;
 const KEYPAIRS: usize = 6;
 const DISAGREE: usize = 7;
+const LONGS: usize = 8;
+const LONGPLIES: usize = 9;
 
 fn coh(ctx: &mut Ctx, case: impl FnOnce() -> Value, b: &Board, when: &str) {
     ctx.add(COH, 1);
@@ -264,12 +268,21 @@ pub fn run(run: &mut Run) {
     sel.ray = None;
     run_universes(run, &sel, DISAGREE, &check_pos);
     transpositions(run, 4);
+    // long histories: the incrementally maintained hash and sets after hundreds of plies on one
+    // board, against a board of the same position built from scratch, and again while unwinding
+    let ll = long_lines(thorough);
+    run.par_shards(&format!("LONG: {} deterministic lines of up to {} plies, incremental state vs from-scratch state at every ply (single deep executions)", ll.len(), uni::long_max(thorough)), ll.len(), |ctx, i| {
+        let n = deep_line(ctx, &ll[i].0, &ll[i].1, "deep");
+        ctx.add(LONGS, 1);
+        ctx.add(LONGPLIES, n as u64);
+    });
     let _ = uni::M3_SHARDS;
 }
 
 pub fn replay(case: &Value, ctx: &mut Ctx) {
     match case["kind"].as_str() {
         Some("keys") => replay_keys(case, ctx),
+        Some("deep") => replay_deep(case, ctx, "deep"),
         Some("transposition") => replay_transposition(case, ctx),
         _ => replay_pos(case, ctx, &check_pos),
     }
